@@ -830,7 +830,7 @@ func execSched(spec *RunSpec, st *Stats) *Violation {
 			}
 		}
 	}
-	if !spec.Cold {
+	if !spec.Cold && !spec.RefAfter {
 		computeExpect()
 	}
 	env := newEnv(spec.Cfg, spec.Docs)
@@ -891,7 +891,7 @@ func execSched(spec *RunSpec, st *Stats) *Violation {
 	if out.deadlock != "" {
 		return &Violation{Class: "deadlock", Client: -1, Op: -1, Detail: out.deadlock, Race: race}
 	}
-	if spec.Cold {
+	if spec.Cold || spec.RefAfter {
 		computeExpect()
 	}
 	// oracles
